@@ -568,6 +568,10 @@ func TestC11(t *testing.T) {
 			{"$nope", "variable"}, {"1 + $nope", "variable"}, {"$x:nope", "variable"}, {"$zz:v", "prefix"}, {"//*[$nope]", "variable"},
 			{"nope()", "function"}, {"x:nope(1)", "function"}, {"zz:f()", "prefix"}, {"//*[nope(.)]", "function"}, {"concat('a', nope())", "function"},
 			{"self::zz:a", "prefix"}, {"string(x:nope())", "function"}, {"p:a", "prefix"}, {"//q:*", "prefix"},
+			// the left operand of and/or is always evaluated
+			{"nope() or true()", "function"}, {"$nope or 1", "variable"}, {"//zz:a or true()", "prefix"}, {"nope() and false()", "function"}, {"$zz:v and 0", "prefix"},
+			{"(nope() or true()) and true()", "function"}, {"//*[$nope or .]", "variable"}, {"count(//*[nope() or true()])", "function"}, {"1 + nope() > 0 or true()", "function"},
+			{"nope() | /*", "function"}, {"-$nope", "variable"}, {"$nope = $nope", "variable"}, {"concat(1, 2, $nope)", "variable"}, {"//*[1][zz:a]", "prefix"},
 		}
 		f := forms[rapid.IntRange(0, len(forms)-1).Draw(t, "form")]
 		c.Text, c.What = f.text, f.what
